@@ -1084,5 +1084,6 @@ func c15Controls() []core.Mutant {
 		{Name: "literal operand of == takes the other operand's type", File: "checker/checker.go", Old: "\tcase \"==\", \"!=\":\n\t\tif isNumber(l) && isNumber(r) {\n", New: "\tcase \"==\", \"!=\":\n\t\tif isNumber(l) && isNumber(r) {\n\t\t\tif isIntegerOrArithmeticOperation(node.Right) && isInteger(l) {\n\t\t\t\tsetTypeForIntegers(node.Right, l)\n\t\t\t}\n", Rule: "R15.4", Construct: "literal retyping site"},
 		{Name: "new float equality fast path selected by kind", File: "compiler/compiler.go", Old: "\t\t} else if simple && l == r && l == reflect.String {\n\t\t\tc.emit(OpEqualString)", New: "\t\t} else if simple && l == r && l == reflect.String {\n\t\t\tc.emit(OpEqualString)\n\t\t} else if l == r && l == reflect.Float64 {\n\t\t\tc.emit(OpEqualString)", Rule: "R15.2", Construct: "OpEqualString"},
 		{Name: "Eval type-checks against the value", File: "expr.go", Old: "\tprogram, err := compiler.Compile(tree, nil)\n\tif err != nil {\n\t\treturn nil, err\n\t}\n\n\toutput, err := vm.Run(program, env)", New: "\tprogram, err := compiler.Compile(tree, conf.New(env))\n\tif err != nil {\n\t\treturn nil, err\n\t}\n\n\toutput, err := vm.Run(program, env)", Rule: "R15.5", Construct: "no configuration"},
+		{Name: "argument cell hoisted out of the reflective call loop", File: "vm/vm.go", Old: "\t\tcase OpCall:\n\t\t\tcall := vm.constant().(Call)\n\t\t\tin := make([]reflect.Value, call.Size)\n\t\t\tfor i := call.Size - 1; i >= 0; i-- {\n\t\t\t\tparam := vm.pop()", New: "\t\tcase OpCall:\n\t\t\tcall := vm.constant().(Call)\n\t\t\tin := make([]reflect.Value, call.Size)\n\t\t\tvar param interface{}\n\t\t\tfor i := call.Size - 1; i >= 0; i-- {\n\t\t\t\tparam = vm.pop()", Rule: "R15.2", Construct: "address of `param`"},
 	}
 }
